@@ -272,15 +272,21 @@ def run_C13(ctx, proof_ok):
     n2, d2 = c13.merge_exact(r, E, budget(ctx.tier, 120, 3000))
     n3, d3 = c13.partials_pruner(r, E, budget(ctx.tier, 40, 600))
     n4, d4 = c13.prune_bound(r, E, budget(ctx.tier, 120, 3000))
-    for d in d1 + d2 + d3 + d4:
+    import ndc
+    rc = lib.rng(1313)
+    n5, d5, dist5 = ndc.compare_cap([ndc.gen_cap_case(rc) for _ in range(budget(ctx.tier, 150, 3000))], E)
+    for d in d1 + d2 + d3 + d4 + d5:
         ctx.violations.append(d)
-    a["evaluations"] += n1 + n2 + n3 + n4
+    a["evaluations"] += n1 + n2 + n3 + n4 + n5
+    a["distribution"]["capped_nd_tables"] = dict(dist5, programs=n5)
     a["distribution"].update({"horizon_acquisitions": n1, "horizon_programs": dist, "merge_cases": n2, "pruner_cases": n3,
                               "prune_bound_acquisitions": n4})
     a["rule"] += (" || searches on the real code: truncated (max_nstate=n) vs untruncated simulate() over random signed step "
                   "sequences in 1-D and n-D, acquisitions compared while the accumulated |shift| per component <= 2n+1, stored "
                   "indices <= n; gridded shifts fine vs coarse grid (sum of amplitudes at x=0 equal, bound at x); PartialsPruner "
-                  "(batched T2) bound threshold x removals; pruning bound 2*eps*cumulative states")
+                  "(batched T2) bound threshold x removals; pruning bound 2*eps*cumulative states || correspondence capped n-D: random "
+                  "integer n-D programs (1-3 gradient axes, integer time accumulation C(m)) under max_nstate / S(nmax=): the state "
+                  "table of epgpy vs `NDS.capRun` (Lean, `table_cap_horizon` / `table_cap_bound` are about exactly this table)")
     return a
 
 
@@ -344,6 +350,9 @@ def replay_generic(ctx, data):
         elif kind == "model-vs-epgpy nd":
             import ndc
             _, dd, _ = ndc.compare([inp], E)
+        elif kind in ("c13-cap", "c13-cap-raised"):
+            import ndc
+            _, dd, _ = ndc.compare_cap([inp], E)
         elif kind == "model-vs-epgpy diffusion":
             import difc
             _, dd = difc.compare([inp], E)
@@ -952,7 +961,9 @@ PROPS["C08"] = {
     "run": run_C08,
     "replay": replay_core,
     "partial": ["the theorem covers the 1-D state model (T, Phi, E, P, R, 1-D shift with truncation, Spoiler, Reset, PD, Wait); "
-                "n-D / gridded shifts, D and X are covered by the search on the real code only"],
+                "coordinate tables with integer shifts along any number of axes, with or without a state cap, stay well-formed "
+                "(`C04.wfn_init / wfn_point / wfn_shift`, `C13Cap.wfn_capShift`, carried through whole programs by `get_capRun`); "
+                "gridded (real-valued) shifts, D and X are covered by the search on the real code only"],
 }
 
 DIFF_PARTIAL = ["proved: (i) every coefficient's symbolic derivative is its derivative, also as a total derivative along a curve in "
@@ -1010,7 +1021,10 @@ PROPS["C13"] = {
                 "merging preserves the value at x = 0 and moves each wavenumber by less than a cell (abstract fibre sums); pruning: exact "
                 "decomposition of the error into propagated removals, |dF0| <= 2 eps x (states removed so far) <= 2 eps x (cumulative "
                 "states) for any sequence of pulses / evolutions / shifts on any number of axes, and masks that keep everything are "
-                "exact (`C13Prune`). Searched only: the n-D horizon, the partials pruner, that the code's masks are the modelled ones; "
+                "exact (`C13Prune`); the integer n-D cap (`C13Cap`): no state beyond the cap, capped tables stay well-formed, state k exact while "
+                "sz k + accumulated shift size <= 2n+1 for any even subadditive size (K4: largest spatial index; time accumulation is "
+                "free), stated on the coordinate tables the driver runs against epgpy. Searched only: the cap of the real-valued "
+                "back-ends (known finding F134: not applied), the partials pruner, that the code's masks are the modelled ones; "
                 "tightness of the horizon (a difference at A = 2n+2) is exhibited numerically, not proved"],
 }
 
@@ -1182,12 +1196,12 @@ EXTRA_MODULES = {
     "C05": ["EpgVerif.Tie.PhysSites", "EpgVerif.Props.C05Path", "EpgVerif.Props.C05Att"],
     "C06": ["EpgVerif.Tie.PhysSites", "EpgVerif.Tie.Exchange"],
     "C07": ["EpgVerif.Tie.ApplySites"],
-    "C08": ["EpgVerif.Tie.ApplySites"],
+    "C08": ["EpgVerif.Tie.ApplySites", "EpgVerif.Props.C04", "EpgVerif.Props.C13Cap"],
     "C09": ["EpgVerif.Tie.PuritySites"],
     "C10": ["EpgVerif.Tie.ApplySites", "EpgVerif.Props.C10Second"],
     "C11": ["EpgVerif.Tie.SeqSites", "EpgVerif.Props.C11Run", "EpgVerif.Props.C11Bind"],
     "C12": ["EpgVerif.Tie.SimSites", "EpgVerif.Tie.Modify"],
-    "C13": ["EpgVerif.Tie.ShiftSites", "EpgVerif.Props.C13Prune"],
+    "C13": ["EpgVerif.Tie.ShiftSites", "EpgVerif.Props.C13Prune", "EpgVerif.Props.C13Cap"],
     "C14": ["EpgVerif.Tie.ShiftSites", "EpgVerif.Props.C14Bound", "EpgVerif.Props.C14Parseval", "EpgVerif.Props.C14Tensor"],
     "C15": ["EpgVerif.Tie.PhysSites", "EpgVerif.Props.C15Box3"],
     "C16": ["EpgVerif.Tie.CollSites"],
